@@ -32,7 +32,7 @@ def main():
     checks = sys.argv[2:] or None
     seeds = sorted(d for d in os.listdir(os.path.join(VERIF, "seeded")) if os.path.isdir(os.path.join(VERIF, "seeded", d))) if seed == "all" else [seed]
     jobs = [(s, checks or ALL) for s in seeds]
-    with ThreadPoolExecutor(max_workers=5) as ex:
+    with ThreadPoolExecutor(max_workers=int(os.environ.get("SEED_RECHECK_JOBS", "5"))) as ex:
         for s, out in ex.map(lambda j: one(*j), jobs):
             own = s[:3]
             print("%-6s %s own-check:%s  %s" % (s, "DETECTED" if out else "MISSED  ", "yes" if own in out else "NO ", json.dumps(out, ensure_ascii=False)[:300]))
